@@ -1,13 +1,20 @@
 import PxModel.Idle
 namespace Px.Idle
 
-def parseEv (tok : String) : Option Ev :=
+def parseEv1 (tok : String) : Option Ev :=
   match tok.splitOn "," with
   | ["r", t, k] => do some (.clientRead (← t.toInt?) (← k.toNat?))
   | ["w", t, f] => do some (.clientWrite (← t.toInt?) (f == "1"))
   | ["u", t, k] => do some (.upstream (← t.toInt?) (← k.toNat?))
   | ["i", t] => do some (.loopIter (← t.toInt?))
   | _ => none
+
+/-- a leading `~` marks an event whose observation the harness cannot take
+    (first half of a combined readable+writable `handle_events` call, the
+    threaded loop's very first check) -/
+def parseEv (tok : String) : Option (Bool × Ev) :=
+  if tok.startsWith "~" then (parseEv1 (tok.drop 1).toString).map (fun e => (true, e))
+  else (parseEv1 tok).map (fun e => (false, e))
 
 def statusStr : Status → String
   | .open => "o"
@@ -18,11 +25,13 @@ def obs (cfg : Cfg) (s : St) (e : Ev) : String :=
   match s.status with
   | .open =>
     s!"{s.lastActivity}:{s.numBuffer}:{s.reaperRuns}:{if isInactive cfg s e.time then 1 else 0}:o"
-  | .reaped t => s!"-:-:{s.reaperRuns}:-:R{t}"
+  | .reaped t => s!"R{t}"
 
-def traceOut (cfg : Cfg) : St → List Ev → List String
+def traceOut (cfg : Cfg) : St → List (Bool × Ev) → List String
   | _, [] => []
-  | s, e :: r => let s' := step cfg s e; obs cfg s' e :: traceOut cfg s' r
+  | s, (silent, e) :: r =>
+    let s' := step cfg s e
+    if silent then traceOut cfg s' r else obs cfg s' e :: traceOut cfg s' r
 
 def drvTrace (cfg : Cfg) (start : String) (evs : List String) : String :=
   match start.toInt?, evs.mapM parseEv with
